@@ -1,25 +1,23 @@
 """C15 -- printer dispatch follows the class hierarchy for every registration history."""
-import ast
-
-from engine import effects, facts
-from engine.astutil import src, call_name, dotted, Guards, compare_parts, enclosing_map
-from engine.flow import Flow, _walk_no_nested
+from engine import effects
 from engine.loader import AnalysisError
 
 META = {
-    'text': 'Static rules for the registration state machine (three stores, two writers): who-may-write on the live '
-            'registry, the deferred dict and the predicate list; with register_deferred=False every write in '
-            'is_registered is unreachable (guard facts); every print consults is_registered(type(value), all flags '
-            'true) on the same unwrapped value before dispatching (must-pass-through by structured dataflow); '
-            'promotion looks up, registers and removes under one key derived from the same class that is '
-            'registered (no cross-wiring), on the same paths; the supertype scan walks __mro__[1:] in order and '
-            'returns at the first hit; the final answer compares dispatch(type) with the base printer by identity; '
-            'predicates are appended, consulted only by the base printer, in list order, first accepting one wins, '
-            'repr otherwise; re-registration overwrites. The dispatch outcome for a whole history and '
-            'functools.singledispatch MRO resolution are NOT decided.',
-    'note': 'functools.singledispatch is trusted; the rule tables name the two legitimate writers',
-    'technique': 'static analysis: effect inventory with who-may-write table, guard facts, must-pass-through '
-                 'typestate, key-consistency by def-use',
+    'text': 'The registry code itself - register_pretty and its decorator, is_registered, pretty_python_value, the printer '
+            'wrapper, the base printer - is interpreted abstractly (no execution) over operation histories on a small class '
+            'lattice with single and multiple inheritance (A<B<C, M, D(B,M)), with functools.singledispatch replaced by a '
+            'model (registry dict, register stores, dispatch walks the MRO) and opaque printers/predicates. Exhaustively for '
+            'all histories of up to two registrations and for all three-step histories registration - lookup - registration '
+            '(thorough: longer and random ones), every step and, after each history, a print of every class and is_registered '
+            'for every flag combination are compared with the rule the property states: nearest class in the MRO whose latest '
+            'registration (direct or by name) counts, else the first-registered accepting predicate, else repr; is_registered '
+            'consistent with it; contradictory flags rejected; register_deferred=False leaves all stores untouched; lookups '
+            'never change what is dispatched later. Plus who-may-write on the three stores over the whole package. '
+            'functools.singledispatch itself (ABC registration, its cache) is NOT decided.',
+    'note': 'functools.singledispatch is modelled (nearest registered class in the MRO); classes registered both directly and '
+            'by name follow "the latest registration wins"',
+    'technique': 'static analysis: abstract interpretation of the registry code over small-scope operation histories against a '
+                 'reference specification; effect inventory with who-may-write table',
 }
 
 WRITERS = {
@@ -31,9 +29,9 @@ WRITERS = {
 
 
 def run(repo, rep):
-    rep.explanation = ('R-WHO (C15.a), read-only query (C15.b), consult-before-dispatch (C15.c), key-consistent '
-                       'move (C15.d), MRO order and identity answer (C15.e), predicate order (C15.f), overwrite '
-                       'semantics (C15.g), flag structure of is_registered (C15.h).')
+    rep.explanation = ('R-WHO (C15.a); interpreted histories: read-only query (C15.b), nearest class printer (C15.c), lookups leave '
+                       'dispatch unchanged (C15.d), is_registered answers (C15.e), predicate order and repr fallback (C15.f), '
+                       'registration accepted / overwrite (C15.g), contradictory flags (C15.h).')
     rep.not_decided = 'the dispatch result of a concrete history; functools.singledispatch internals.'
     rep.assumptions = ['functools.singledispatch resolves the nearest registered class in the MRO']
     m = repo.module('prettyprinter')
@@ -64,332 +62,10 @@ def run(repo, rep):
                   'no write site for %s found: registration by that route is lost' % k)
     rep.floor('C15.a', n, 7)
 
-    # registration routes inside the decorator
-    dec = m.funcs.get('register_pretty.<locals>.decorator')
-    if dec is None:
-        raise AnalysisError('register_pretty no longer defines its decorator')
-    g = Guards(dec.node)
-    n = 0
-    for c in ast.walk(dec.node):
-        if isinstance(c, ast.Assign) and isinstance(c.targets[0], ast.Subscript) \
-                and src(c.targets[0].value) == '_DEFERRED_DISPATCH_BY_NAME':
-            n += 1
-            ok = src(c.targets[0].slice) == 'type' and src(c.value) == dec.params[0] \
-                and any(f.pol and f.text == 'isinstance(type, str)' for f in g.of(c))
-            rep.check(ok, 'C15.g', 'decorator:deferred-store', '%s:%d' % (m.relpath, c.lineno),
-                      'deferred[name] = fn (overwrites), only for str keys',
-                      'deferred registration is %s under %s' % (src(c), g.texts(c)), nontrivial=True)
-        if isinstance(c, ast.Call) and call_name(c) == 'pretty_dispatch.register':
-            n += 1
-            ok = src(c.args[0]) == 'type' and any((not f.pol) and f.text == 'isinstance(type, str)' for f in g.of(c))
-            inner = c.args[1] if len(c.args) > 1 else None
-            ok = ok and isinstance(inner, ast.Call) and call_name(inner) == 'partial' and \
-                len(inner.args) == 2 and src(inner.args[1]) == dec.params[0]
-            rep.check(ok, 'C15.g', 'decorator:class-register', '%s:%d' % (m.relpath, c.lineno),
-                      'class registered with the decorated function',
-                      'class registration is %s under %s' % (src(c), g.texts(c)), nontrivial=True)
-        if isinstance(c, ast.Call) and call_name(c) == '_PREDICATE_REGISTRY.append':
-            n += 1
-            ok = src(c.args[0]).replace(' ', '') == '(predicate,%s)' % dec.params[0]
-            rep.check(ok, 'C15.f', 'decorator:predicate-append', '%s:%d' % (m.relpath, c.lineno),
-                      'predicates appended as (predicate, fn)', 'predicate registration is %s' % src(c), nontrivial=True)
-        if isinstance(c, ast.Call) and call_name(c) in ('_PREDICATE_REGISTRY.insert', '_PREDICATE_REGISTRY.extend'):
-            n += 1
-            rep.fail('C15.f', 'decorator:predicate-' + c.func.attr, '%s:%d' % (m.relpath, c.lineno),
-                     'predicates must be appended (first registered, first consulted); found %s' % src(c))
-    n += 1
-    stores = [c for c in ast.walk(dec.node) if isinstance(c, ast.Assign) and isinstance(c.targets[0], ast.Subscript)
-              and src(c.targets[0].value) == '_DEFERRED_DISPATCH_BY_NAME']
-    rep.check(len(stores) >= 1, 'C15.g', 'decorator:deferred-store-overwrites', dec.where,
-              'registration by name is a plain store (a later one replaces an earlier one)',
-              'registration by name no longer stores with _DEFERRED_DISPATCH_BY_NAME[name] = fn: a later registration '
-              'for the same name does not replace the earlier one', nontrivial=True)
-    rets = [r for r in ast.walk(dec.node) if isinstance(r, ast.Return)]
-    n += 1
-    rep.check(rets and all(r.value is not None and src(r.value) == dec.params[0] for r in rets), 'C15.g',
-              'decorator:returns-fn', dec.where, 'decorator returns the function unchanged',
-              'decorator returns %s' % [src(r.value) for r in rets])
-    rep.floor('C15.g', n, 4)
-
-    # ---------------------------------------------------------------- C15.b
-    n = 0
-    gi = Guards(isr.node)
-    for c in ast.walk(isr.node):
-        is_write = False
-        label = None
-        if isinstance(c, ast.Call) and isinstance(c.func, ast.Attribute) and c.func.attr in effects.MUTATORS \
-                and src(c.func.value) in WRITERS:
-            is_write, label = True, '%s.%s' % (src(c.func.value), c.func.attr)
-        if isinstance(c, ast.Call) and isinstance(c.func, ast.Call) and call_name(c.func) == 'register_pretty':
-            is_write, label = True, 'register_pretty(...)(...)'
-        if isinstance(c, (ast.Assign, ast.Delete)) :
-            tg = c.targets
-            for t in tg:
-                if isinstance(t, ast.Subscript) and src(t.value) in WRITERS:
-                    is_write, label = True, 'store into ' + src(t.value)
-        if not is_write:
-            continue
-        n += 1
-        ok = any(f.pol and f.text == 'register_deferred' for f in gi.of(c))
-        rep.check(ok, 'C15.b', 'is_registered:write-guarded:%s' % label, '%s:%d' % (m.relpath, c.lineno),
-                  'write only under register_deferred',
-                  'is_registered performs %s without register_deferred being true (%s): a pure query changes later '
-                  'dispatch' % (label, gi.texts(c)), nontrivial=True)
-    rep.floor('C15.b', n, 4)
-
-    # ---------------------------------------------------------------- C15.c
-    n = 0
-    value_var = None
-    for s in ast.walk(ppv.node):
-        if isinstance(s, ast.Assign) and isinstance(s.value, ast.Call) and call_name(s.value) == 'unwrap_comments' \
-                and isinstance(s.targets[0], ast.Tuple):
-            value_var = src(s.targets[0].elts[0])
-    if value_var is None:
-        raise AnalysisError('pretty_python_value no longer unwraps comments')
-    checks = [c for c in ast.walk(ppv.node) if isinstance(c, ast.Call) and call_name(c) == 'is_registered']
-    n += 1
-    rep.check(len(checks) == 1, 'C15.c', 'pretty_python_value:consults-once', ppv.where, 'one is_registered call',
-              'pretty_python_value calls is_registered %d times' % len(checks), nontrivial=True)
-    for c in checks:
-        kw = {k.arg: src(k.value) for k in c.keywords}
-        # defaults of is_registered for omitted flags
-        a = isr.node.args
-        defaults = {k.arg: src(d) for k, d in zip(a.kwonlyargs, a.kw_defaults) if d is not None}
-        eff = dict(defaults)
-        eff.update(kw)
-        n += 1
-        ok = c.args and src(c.args[0]) == 'type(%s)' % value_var and eff.get('check_superclasses') == 'True' \
-            and eff.get('check_deferred') == 'True' and eff.get('register_deferred') == 'True'
-        rep.check(ok, 'C15.c', 'pretty_python_value:flags', '%s:%d' % (m.relpath, c.lineno),
-                  'type(value) with superclasses, deferred and promotion enabled',
-                  'pretty_python_value consults is_registered(%s, %s): lazily registered printers of the class or its '
-                  'bases are not promoted before dispatch' % (src(c.args[0]) if c.args else '', eff), nontrivial=True)
-
-    def transfer(st, state):
-        has_chk = any(isinstance(x, ast.Call) and call_name(x) == 'is_registered' for x in _walk_no_nested(st))
-        has_dis = [x for x in _walk_no_nested(st) if isinstance(x, ast.Call) and call_name(x) == 'pretty_dispatch']
-        if has_dis and not (state or has_chk):
-            early.append(st.lineno)
-        # unwrap re-assignment after the check would consult on a different value
-        if state and isinstance(st, ast.Assign) and value_var in {x.id for t in st.targets for x in ast.walk(t) if isinstance(x, ast.Name)}:
-            rebound.append(st.lineno)
-        return [1 if (state or has_chk) else 0]
-    early, rebound = [], []
-    fl = Flow(transfer, lambda st, s: [])
-    fl.run(ppv.node, 0)
-    rep.count(fl.visited_stmts)
-    n += 1
-    rep.check(not early, 'C15.c', 'pretty_python_value:check-precedes-dispatch', ppv.where,
-              'is_registered precedes the dispatch on every path',
-              'pretty_dispatch is called at line(s) %s on a path that has not consulted is_registered' % early, nontrivial=True)
-    n += 1
-    rep.check(not rebound, 'C15.c', 'pretty_python_value:same-value', ppv.where, 'dispatch on the value that was checked',
-              'the value is re-bound at line(s) %s between the registration check and the dispatch' % rebound)
-    for c in ast.walk(ppv.node):
-        if isinstance(c, ast.Call) and call_name(c) == 'pretty_dispatch':
-            n += 1
-            rep.check(c.args and src(c.args[0]) == value_var, 'C15.c', 'pretty_python_value:dispatch-value@%s' % (
-                'with-comment' if c.keywords else 'plain'), '%s:%d' % (m.relpath, c.lineno), 'dispatch on the unwrapped value',
-                'pretty_dispatch is called on %s, the registration check used type(%s)' % (src(c.args[0]) if c.args else '', value_var))
-    rep.floor('C15.c', n, 5)
-
-    # ---------------------------------------------------------------- C15.d / C15.e
-    n = 0
-    gdk = m.funcs.get('get_deferred_key')
-    n += 1
-    if gdk is None:
-        rep.fail('C15.d', 'get_deferred_key:exists', m.relpath, 'get_deferred_key vanished')
-    else:
-        p0 = gdk.params[0]
-        rets = [r for r in ast.walk(gdk.node) if isinstance(r, ast.Return)]
-        want = {"%s.__module__ + '.' + %s.__qualname__" % (p0, p0)}
-        ok = len(rets) == 1 and (src(rets[0].value) in want or
-                                 src(rets[0].value).replace(' ', '') in ("'{}.{}'.format(%s.__module__,%s.__qualname__)" % (p0, p0),
-                                                                         "f'{%s.__module__}.{%s.__qualname__}'" % (p0, p0)))
-        rep.check(ok, 'C15.d', 'get_deferred_key:module-dot-qualname', gdk.where, "key = __module__ + '.' + __qualname__",
-                  'get_deferred_key returns %s' % [src(r.value) for r in rets], nontrivial=True)
-    # promotion sites: register_pretty(T)(fn)
-    par = enclosing_map(isr.node)
-    promos = [c for c in ast.walk(isr.node) if isinstance(c, ast.Call) and isinstance(c.func, ast.Call)
-              and call_name(c.func) == 'register_pretty']
-    for i, c in enumerate(sorted(promos, key=lambda x: x.lineno)):
-        T = src(c.func.args[0]) if c.func.args else None
-        fnarg = src(c.args[0]) if c.args else None
-        label = 'exact' if T == isr.params[0] else 'supertype'
-        # the key variable in scope: nearest preceding ``K = get_deferred_key(X)``
-        blk = _enclosing_block(c, isr.node)
-        key_assign = _nearest_assign(isr.node, c.lineno, lambda v: isinstance(v, ast.Call) and call_name(v) == 'get_deferred_key')
-        n += 1
-        if key_assign is None:
-            rep.fail('C15.d', 'is_registered:promotion-%s:key' % label, '%s:%d' % (m.relpath, c.lineno),
-                     'no deferred key computed before the promotion')
-            continue
-        kvar = src(key_assign.targets[0])
-        kT = src(key_assign.value.args[0])
-        rep.check(kT == T, 'C15.d', 'is_registered:promotion-%s:same-class' % label, '%s:%d' % (m.relpath, c.lineno),
-                  'printer registered for the class whose key was looked up',
-                  'the deferred printer found under the key of %s is registered for %s' % (kT, T), nontrivial=True)
-        # the function registered is the one obtained from the deferred store under that key
-        fa = _nearest_assign(isr.node, c.lineno, lambda v: isinstance(v, ast.Call) and call_name(v) in (
-            '_DEFERRED_DISPATCH_BY_NAME.get', '_DEFERRED_DISPATCH_BY_NAME.pop') or (
-                isinstance(v, ast.Subscript) and src(v.value) == '_DEFERRED_DISPATCH_BY_NAME'), name=fnarg)
-        n += 1
-        okf = fa is not None and (src(fa.value.args[0]) if isinstance(fa.value, ast.Call) else src(fa.value.slice)) == kvar
-        rep.check(okf, 'C15.d', 'is_registered:promotion-%s:printer-from-same-key' % label, '%s:%d' % (m.relpath, c.lineno),
-                  'registered printer was fetched under the same key',
-                  'the promoted printer %s does not come from _DEFERRED_DISPATCH_BY_NAME[%s]' % (fnarg, kvar), nontrivial=True)
-        # removal of the same key on the same paths (a move, not a copy)
-        removal = [x for x in ast.walk(isr.node) if isinstance(x, ast.Call) and call_name(x) == '_DEFERRED_DISPATCH_BY_NAME.pop'
-                   and _same_region(x, c, isr.node)]
-        n += 1
-        okm = len(removal) == 1 and src(removal[0].args[0]) == kvar and \
-            {f.key() for f in gi.of(removal[0])} == {f.key() for f in gi.of(c)}
-        rep.check(okm, 'C15.d', 'is_registered:promotion-%s:moves' % label, '%s:%d' % (m.relpath, c.lineno),
-                  'key removed from the deferred store on exactly the paths that register it',
-                  'promotion of %s does not remove key %s from the deferred store under the same conditions '
-                  '(removals: %s)' % (T, kvar, [src(x) for x in removal]), nontrivial=True)
-        # hit => return True
-        n += 1
-        rt = _return_after(c, isr.node)
-        rep.check(rt == 'True', 'C15.e', 'is_registered:promotion-%s:first-hit-returns' % label, '%s:%d' % (m.relpath, c.lineno),
-                  'scan stops at the first hit', 'after promoting %s the function returns %s' % (T, rt), nontrivial=True)
-    rep.check(len(promos) == 2, 'C15.d', 'is_registered:two-promotion-sites', isr.where, 'exact and supertype promotion',
-              'found %d promotion sites (exact type and supertype expected)' % len(promos))
-    # supertype scan order
-    loops = [l for l in ast.walk(isr.node) if isinstance(l, ast.For)]
-    n += 1
-    okl = len(loops) == 1 and src(loops[0].iter) == '%s.__mro__[1:]' % isr.params[0]
-    rep.check(okl, 'C15.e', 'is_registered:mro-order', isr.where, 'supertypes scanned nearest first',
-              'the supertype scan iterates %s; the nearest class must be found first: %s.__mro__[1:]'
-              % ([src(l.iter) for l in loops], isr.params[0]), nontrivial=True)
-    if okl:
-        gl = gi.of(loops[0])
-        rep.check(any(f.pol and f.text == 'check_deferred' for f in gl) and
-                  any((not f.pol) and f.text == 'not check_superclasses' or f.pol and f.text == 'check_superclasses' for f in gl),
-                  'C15.h', 'is_registered:supertype-scan-flags', '%s:%d' % (m.relpath, loops[0].lineno),
-                  'scan only with check_superclasses and check_deferred', 'supertype scan runs under %s' % gi.texts(loops[0]))
-    # final answer
-    last = isr.node.body[-1]
-    n += 1
-    okr = isinstance(last, ast.Return) and src(last.value) in (
-        'pretty_dispatch.dispatch(%s) is not _BASE_DISPATCH' % isr.params[0],)
-    rep.check(okr, 'C15.e', 'is_registered:final-answer', '%s:%d' % (m.relpath, last.lineno),
-              'dispatch(type) compared with the base printer by identity',
-              'the final answer is %s' % (src(last.value) if isinstance(last, ast.Return) else src(last)), nontrivial=True)
-    base = m.assigns.get('_BASE_DISPATCH')
-    sd = m.assigns.get('pretty_dispatch')
-    n += 1
-    rep.check(bool(base) and bool(sd) and src(sd[-1]) == 'singledispatch(_BASE_DISPATCH)', 'C15.e', 'base-printer-identity', m.relpath,
-              'the object compared with is the one given to singledispatch',
-              'pretty_dispatch = %s' % (src(sd[-1]) if sd else None))
-    rep.floor('C15.d+e', n, 12)
-
-    # ---------------------------------------------------------------- C15.h flag structure
-    n = 0
-    first_if = [s for s in isr.node.body if isinstance(s, ast.If)]
-    exact = [s for s in first_if if src(s.test) == '%s in pretty_dispatch.registry' % isr.params[0]]
-    n += 1
-    rep.check(len(exact) == 1 and len(exact[0].body) == 1 and src(exact[0].body[0]) == 'return True',
-              'C15.h', 'is_registered:exact-live-hit', isr.where, 'exact live registration answers True unconditionally',
-              'the exact "type in registry" answer is missing or conditional')
-    early = [s for s in first_if if src(s.test) == 'not check_superclasses']
-    n += 1
-    rep.check(len(early) == 1 and src(early[0].body[0]) == 'return False', 'C15.h', 'is_registered:no-superclasses-stops',
-              isr.where, 'without check_superclasses only the exact class counts',
-              'the "not check_superclasses -> False" exit is missing')
-    for c in ast.walk(isr.node):
-        if isinstance(c, ast.Call) and call_name(c) == '_DEFERRED_DISPATCH_BY_NAME.get' or \
-                (isinstance(c, ast.Compare) and isinstance(c.ops[0], ast.In) and src(c.comparators[0]) == '_DEFERRED_DISPATCH_BY_NAME'):
-            n += 1
-            rep.check(any(f.pol and f.text == 'check_deferred' for f in gi.of(c)), 'C15.h',
-                      'is_registered:deferred-lookup-guarded@%s' % ('scan' if any(isinstance(p, ast.For) for p in _ancestors(c, par)) else 'exact'),
-                      '%s:%d' % (m.relpath, c.lineno), 'deferred store consulted only with check_deferred',
-                      'deferred store consulted without check_deferred (%s)' % gi.texts(c), nontrivial=True)
-    rep.floor('C15.h', n, 4)
-
-    # ---------------------------------------------------------------- C15.f base printer
-    n = 0
-    wfn = facts.wrapper_function(repo)
-    bp = None
-    if base and isinstance(base[-1], ast.Call) and len(base[-1].args) == 2:
-        r = repo.resolve(m, src(base[-1].args[1]))
-        if r and r[0] == 'func':
-            bp = r[1]
-    if bp is None:
-        raise AnalysisError('base printer not identifiable from _BASE_DISPATCH')
-    readers = {s.fn.qualname for s in all_sites if s.obj.name == '_PREDICATE_REGISTRY' and s.kind == 'read' and s.fn}
-    n += 1
-    rep.check(readers == {bp.qualname}, 'C15.f', 'predicates:consulted-only-by-base', bp.where,
-              'only the base printer reads the predicate list', 'predicate list is read by %s' % sorted(readers), nontrivial=True)
-    loops = [l for l in ast.walk(bp.node) if isinstance(l, ast.For)]
-    n += 1
-    okp = len(loops) == 1 and src(loops[0].iter) == '_PREDICATE_REGISTRY' and isinstance(loops[0].target, ast.Tuple)
-    rep.check(okp, 'C15.f', 'base-printer:list-order', bp.where, 'predicates tried in registration order',
-              'base printer iterates %s' % [src(l.iter) for l in loops], nontrivial=True)
-    if okp:
-        pv, fv = (e.id for e in loops[0].target.elts)
-        gb = Guards(bp.node)
-        rets = [r for r in ast.walk(loops[0]) if isinstance(r, ast.Return)]
-        n += 1
-        ok = len(rets) == 1 and src(rets[0].value) == '%s(%s)' % (fv, ', '.join(bp.params)) and \
-            any(f.pol and f.text == '%s(%s)' % (pv, bp.params[0]) for f in gb.of(rets[0]))
-        rep.check(ok, 'C15.f', 'base-printer:first-accepting-wins', bp.where, 'first accepting predicate returns its printer',
-                  'inside the predicate loop the base printer does %s' % [src(r) for r in rets], nontrivial=True)
-        tail = bp.node.body[-1]
-        n += 1
-        rep.check(isinstance(tail, ast.Return) and src(tail.value) == 'repr(%s)' % bp.params[0], 'C15.f', 'base-printer:repr-otherwise', bp.where,
-                  'repr when no predicate accepts', 'base printer falls through to %s' % src(tail), nontrivial=True)
-    rep.floor('C15.f', n, 4)
-
-
-def _ancestors(node, par):
-    out = []
-    p = par.get(id(node))
-    while p is not None:
-        out.append(p)
-        p = par.get(id(p))
-    return out
-
-
-def _enclosing_block(node, root):
-    for n in ast.walk(root):
-        for fld in ('body', 'orelse'):
-            blk = getattr(n, fld, None)
-            if isinstance(blk, list) and any(node in list(ast.walk(s)) for s in blk):
-                best = blk
-    return best
-
-
-def _nearest_assign(fn, lineno, pred, name=None):
-    best = None
-    for s in ast.walk(fn):
-        if isinstance(s, ast.Assign) and s.lineno < lineno and pred(s.value):
-            if name is not None and src(s.targets[0]) != name:
-                continue
-            if best is None or s.lineno > best.lineno:
-                best = s
-    return best
-
-
-def _same_region(a, b, fn):
-    """a and b are inside the same innermost ``if`` body"""
-    par = enclosing_map(fn)
-
-    def inner_if(n):
-        p = par.get(id(n))
-        while p is not None and not isinstance(p, ast.If):
-            p = par.get(id(p))
-        return p
-    return inner_if(a) is inner_if(b)
-
-
-def _return_after(call, fn):
-    """value returned once the ``if`` that holds the promotion has been executed"""
-    par = enclosing_map(fn)
-    p = par.get(id(call))
-    # climb to the outer ``if found:`` whose body ends with return
-    while p is not None:
-        if isinstance(p, ast.If) and p.body and isinstance(p.body[-1], ast.Return):
-            return src(p.body[-1].value)
-        p = par.get(id(p))
-    return None
+    # ---------------------------------------------------------------- C15.b-h: the registration state machine, semantically
+    from . import registry_model
+    k = registry_model.check_histories(repo, rep)
+    rep.floor('C15.b-h', k, 14)
+    steps = rep.analysed.get('registry_steps_interpreted', 0)
+    if steps < 20000:
+        rep.error('only %d registry steps were interpreted (expected more than 20000): vacuous pass refused' % steps)
